@@ -3,9 +3,10 @@ import io, itertools, multiprocessing, os, threading, time
 import common
 from common import codes, uncodes
 import tokutil
+import c03_sessions as S
 
 PID = 'C03'
-GENS = ['tok']
+GENS = ['tok', 'c03']
 DRIVERS = ['drv_c03', 'drv_tok']
 PROPS = 'Srctools.Props.C03'
 RULE = ("exhaustive: every string of length <= L (L=3 quick; thorough adds length 4 over a 10-symbol sub-alphabet) over a "
@@ -557,6 +558,65 @@ def correspond(ctx, drivers):
             for (key, what, name) in probs[:3]:
                 _witness_from(ctx, s, key, what, opts, name)
 
+    # 3. tokenizer-level sessions
+    t0 = time.time()
+    run_sessions(ctx, drv_c)
+    ctx.extra['sessions_wall_s'] = round(time.time() - t0, 1)
+
+
+# --------------------------------------------------------------------------- sessions
+
+def run_sessions(ctx, drv):
+    """Sequences of tokenizer objects in one import: abandoned ones (tokens pushed back, mid-string, after an error,
+    line_num modified), then a fresh Tokenizer whose full stream must equal the model's and the pristine-state result.
+    A failing session is confirmed from a pristine import, shrunk (ddmin) and becomes the witness."""
+    rng = ctx.rng
+    n = ctx.budget(1200, 12000)
+    EPOCH = 40
+    classes, epoch_calls = None, []
+    reqs, meta = [], []
+    nfound = 0
+    for si in range(n):
+        if si % EPOCH == 0:
+            classes, epoch_calls = S.fresh_classes(), []
+        calls = S.gen_session(rng, gen_doc)
+        res = S.run_session(classes, calls)
+        ctx.count('session')
+        for c in calls:
+            ctx.count('session call:' + c['mode'] + ('' if c['mode'] != 'ops' else (' leaving tokens pushed back' if c['ops'][-1] in ('peek', 'push') else '')))
+        ctx.case({'session': calls}, nontrivial=True, sample_every=397)
+        ctx.traces_vs_impl += 1
+        for c, r in zip(calls, res):
+            rq = S.model_req(c)
+            if rq is not None and drv is not None:
+                reqs.append(rq)
+                meta.append((calls, c, r))
+        # the property itself: the last call gives what it gives on a pristine import
+        if res[-1] != S.pristine(calls[-1]):
+            nfound += 1
+            if nfound <= 3:
+                hist, note = calls, ''
+                if not S.session_fails(hist):
+                    if S.session_fails(epoch_calls + calls):
+                        hist = epoch_calls + calls
+                    else:
+                        note = ' (not reproduced from a pristine import: depends on more history than this run kept)'
+                if not note and nfound == 1:
+                    hist = S.shrink(hist)
+                after = S.run_session(S.fresh_classes(), hist)[-1] if not note else res[-1]
+                ctx.witness('session-history', f'the token stream of a text depends on what other tokenizers of the process did before: '
+                            f'{S.describe(hist[:-1])}; THEN {S.describe(hist[-1:])} gives {after} but on a pristine import {S.pristine(hist[-1])}{note}',
+                            {'session': hist})
+            classes, epoch_calls = S.fresh_classes(), []
+            continue
+        epoch_calls += calls
+    if reqs:
+        replies = _drv_parallel(drv, reqs, parts=4)
+        for (calls, c, r), m in zip(meta, replies):
+            want = S.model_expect(c, m)
+            if r != want:
+                ctx.disagree({'session': calls, 'call': c}, r, want, 'session call vs model (pure function of the call)')
+
 
 # --------------------------------------------------------------------------- direct search on the implementation
 
@@ -674,6 +734,7 @@ def search(ctx):
         for _ in range(300):
             s = gen_doc(rng)
             _check_text(ctx, s, [tokutil.DEFAULT_OPTS, [rng.random() < 0.5 for _ in range(7)]], rng)
+        run_sessions(ctx, None)
     # (b) neighbours of every disagreeing input
     for d in ctx.disagreements[:20]:
         c = d.get('case') or {}
@@ -752,6 +813,12 @@ def replay(ctx, payload):
         ok = _kv_parse_check(ctx, t, ch, inp.get('kw'))
         print('Keyvalues.parse input', repr(t), 'options', inp.get('kw'), 'chunks', ch, '->', 'only KeyValError / ok' if ok else ctx.witnesses[-1]['what'])
         return ok
+    if 'session' in inp:
+        bad = S.session_fails(inp['session'])
+        print('session:', S.describe(inp['session'][:-1]), '; THEN', S.describe(inp['session'][-1:]))
+        print('  after this history :', S.run_session(S.fresh_classes(), inp['session'])[-1])
+        print('  on a pristine import:', S.pristine(inp['session'][-1]))
+        return not bad
     if 's' not in inp:
         print('replay file names a broken obligation/correspondence, no input to replay:', payload.get('broken_obligations'), payload.get('disagreements', [])[:1])
         return False
